@@ -18,6 +18,9 @@ type CharSet struct {
 	sub        *CharSet //optional subtractor
 	negate     bool
 	anything   bool
+	// autoNegated records that negate was set by canonicalize's "everything but
+	// one range" normalization rather than by the pattern
+	autoNegated bool
 
 	ascii *asciiBitmap
 }
@@ -169,8 +172,9 @@ func getCharSetFromOldString(setText []rune, negate bool) func() *CharSet {
 // Copy makes a deep copy to prevent accidental mutation of a set
 func (c CharSet) Copy() CharSet {
 	ret := CharSet{
-		anything: c.anything,
-		negate:   c.negate,
+		anything:    c.anything,
+		negate:      c.negate,
+		autoNegated: c.autoNegated,
 	}
 
 	ret.ranges = append(ret.ranges, c.ranges...)
@@ -557,6 +561,7 @@ func (c *CharSet) addWord(ecma, negate bool) {
 
 // Add set ranges and categories into ours -- no deduping or anything
 func (c *CharSet) addSet(set CharSet) {
+	c.denormalize()
 	if c.anything {
 		return
 	}
@@ -577,6 +582,7 @@ func (c *CharSet) makeAnything() {
 }
 
 func (c *CharSet) addCategories(cats ...Category) {
+	c.denormalize()
 	// don't add dupes and remove positive+negative
 	if c.anything {
 		// if we've had a previous positive+negative group then
@@ -605,8 +611,30 @@ func (c *CharSet) addCategories(cats ...Category) {
 	}
 }
 
+// denormalize turns a class that canonicalize rewrote into its negated form back
+// into plain ranges, so that more members can be added to it.
+func (c *CharSet) denormalize() {
+	if !c.autoNegated {
+		return
+	}
+	c.autoNegated = false
+	if !c.negate || len(c.ranges) != 1 {
+		return
+	}
+	r := c.ranges[0]
+	c.negate = false
+	c.ranges = c.ranges[:0]
+	if r.First > 0 {
+		c.ranges = append(c.ranges, SingleRange{0, r.First - 1})
+	}
+	if r.Last < unicode.MaxRune {
+		c.ranges = append(c.ranges, SingleRange{r.Last + 1, unicode.MaxRune})
+	}
+}
+
 // Merges new ranges to our own
 func (c *CharSet) addRanges(ranges []SingleRange) {
+	c.denormalize()
 	if c.anything {
 		return
 	}
@@ -616,6 +644,7 @@ func (c *CharSet) addRanges(ranges []SingleRange) {
 
 // Merges everything but the new ranges into our own
 func (c *CharSet) addNegativeRanges(ranges []SingleRange) {
+	c.denormalize()
 	if c.anything {
 		return
 	}
@@ -714,6 +743,8 @@ func (c *CharSet) addCaseEquivalences() {
 	if c.anything {
 		return
 	}
+	// the equivalents of the members are wanted, not those of a synthetic exclusion
+	c.denormalize()
 	rangeCount := len(c.ranges)
 	for i := 0; i < rangeCount; i++ {
 		r := c.ranges[i]
@@ -752,6 +783,7 @@ func (c *CharSet) addSubtraction(sub *CharSet) {
 }
 
 func (c *CharSet) addRange(chMin, chMax rune) {
+	c.denormalize()
 	c.ranges = append(c.ranges, SingleRange{First: chMin, Last: chMax})
 	c.canonicalize()
 }
@@ -872,6 +904,7 @@ func (c *CharSet) canonicalize() {
 				c.ranges[0].Last < c.ranges[1].First-1 {
 				c.ranges = []SingleRange{{c.ranges[0].Last + 1, c.ranges[1].First - 1}}
 				c.negate = true
+				c.autoNegated = true
 			}
 		} else if len(c.ranges) == 1 {
 			switch c.ranges[0].First {
@@ -880,12 +913,14 @@ func (c *CharSet) canonicalize() {
 				if c.ranges[0].Last == unicode.MaxRune-1 {
 					c.ranges[0] = SingleRange{unicode.MaxRune, unicode.MaxRune}
 					c.negate = true
+					c.autoNegated = true
 				}
 			case 1:
 				// Or everything but the first char?
 				if c.ranges[0].Last >= unicode.MaxRune {
 					c.ranges[0] = SingleRange{'\x00', '\x00'}
 					c.negate = true
+					c.autoNegated = true
 				}
 			}
 		}
@@ -916,6 +951,7 @@ func (c *CharSet) canonicalize() {
 			c.makeAnything()
 		} else {
 			c.negate = true
+			c.autoNegated = true
 			c.ranges = []SingleRange{{c.ranges[0].Last + 1, c.ranges[0].Last + 1}}
 			c.categories = []Category{}
 		}
